@@ -19,13 +19,6 @@ import (
 //  3. T1 must equal T2 entry by entry, and the distinguished calls are repeated and must give what they gave cold.
 // Any difference is a result that depends on the call history.
 
-type coldOut struct {
-	ColdCalls    int      `json:"cold_calls"`
-	TableEntries int      `json:"table_entries"`
-	Violations   []string `json:"violations"`
-	Keys         []string `json:"keys"`
-}
-
 func describe[T comparable, P Object[T]](im *Impl[T, P], o T) []string {
 	var out []string
 	oo := o
@@ -66,101 +59,120 @@ func distinguished[T comparable, P Object[T]](im *Impl[T, P]) []T {
 	return objs
 }
 
-// C14Cold is the entry point of the fresh process.
-func C14Cold(tier string) {
-	var out coldOut
-	add := func(key, what string) {
-		if len(out.Violations) < 20 {
-			out.Violations = append(out.Violations, what)
-			out.Keys = append(out.Keys, key)
-		}
+// coldTables is what one fresh process reports.
+type coldTables struct {
+	Order string       `json:"order"`
+	Cold  [][]string   `json:"cold"` // distinguished calls made first
+	Warm  [][]string   `json:"warm"` // the same calls after the long history
+	V4    []float32    `json:"v4"`   // Score over the v4 sub-lattice
+	V31   [][3]float32 `json:"v31"`
+	V30   [][3]float32 `json:"v30"`
+	V2    [][3]float32 `json:"v2"`
+}
+
+// v4 sub-lattice of the cold/warm runs: all 186,624 base classes x E in {A,U} x CR=IR=AR in {H,L}.
+func coldV4Class(i int) spec.V4Class {
+	c := spec.V4ClassFromIndex(i % 186624)
+	k := i / 186624
+	if k&1 == 1 {
+		c[spec.V4E] = 2
 	}
-	// 1. cold calls (v4 zero value first)
+	if k&2 == 2 {
+		c[spec.V4CR], c[spec.V4IR], c[spec.V4AR] = 2, 2, 2
+	}
+	return c
+}
+
+const coldV4N = 186624 * 4
+
+// C14Cold is the entry point of ONE fresh process: distinguished calls first (empty history), then the score
+// tables in the given order (asc / desc), then the distinguished calls again. Single goroutine.
+func C14Cold(tier, order string) {
+	var out coldTables
+	out.Order = order
 	d40, d31, d30, d20 := distinguished(I40), distinguished(I31), distinguished(I30), distinguished(I20)
-	var cold [][]string
-	for _, o := range d40 {
-		oo := o
-		cold = append(cold, append(describe(I40, o), "Nomenclature="+oo.Nomenclature()))
+	calls := func() [][]string {
+		var c [][]string
+		for _, o := range d40 {
+			oo := o
+			c = append(c, append(describe(I40, o), "Nomenclature="+oo.Nomenclature()))
+		}
+		for _, o := range d31 {
+			c = append(c, describe(I31, o))
+		}
+		for _, o := range d30 {
+			c = append(c, describe(I30, o))
+		}
+		for _, o := range d20 {
+			c = append(c, describe(I20, o))
+		}
+		return c
 	}
-	for _, o := range d31 {
-		cold = append(cold, describe(I31, o))
-	}
-	for _, o := range d30 {
-		cold = append(cold, describe(I30, o))
-	}
-	for _, o := range d20 {
-		cold = append(cold, describe(I20, o))
-	}
-	out.ColdCalls = len(cold)
-	// 2. long deterministic history: tables in ascending then descending order
+	out.Cold = calls()
 	spec.V4Init()
-	stride := 7
+	stride := 3
 	if tier == "thorough" {
 		stride = 1
 	}
-	n4 := spec.V4NumClasses / 81 // E and CR/IR/AR fixed to their first values: all 186,624 base classes
-	t1 := make([]float64, n4)
-	score4 := func(i int) float64 {
-		c := spec.V4ClassFromIndex(i)
-		rp := CanonRepr(c)
+	each := func(n int, f func(i int)) {
+		if order == "desc" {
+			for i := ((n - 1) / stride) * stride; i >= 0; i -= stride {
+				f(i)
+			}
+			return
+		}
+		for i := 0; i < n; i += stride {
+			f(i)
+		}
+	}
+	out.V4 = make([]float32, coldV4N)
+	each(coldV4N, func(i int) {
+		rp := CanonRepr(coldV4Class(i))
 		o, _ := rp.Object()
-		s, _ := v4ImplScore(&o)
-		return s
-	}
-	for i := 0; i < n4; i += stride {
-		t1[i] = score4(i)
-	}
-	for i := ((n4 - 1) / stride) * stride; i >= 0; i -= stride {
-		if s := score4(i); s != t1[i] {
-			add("v4.0/Score/order-dependent", fmt.Sprintf("v4 Score of class %s was %v in the ascending pass and %v in the descending pass", spec.V4ClassFromIndex(i), t1[i], s))
-			break
+		s, p := v4ImplScore(&o)
+		if p != nil {
+			s = -999
 		}
-		out.TableEntries++
-	}
-	table3 := func(tag string, build func(a spec.Assignment) []float64, ver *spec.Version) {
+		out.V4[i] = float32(s)
+	})
+	v3tab := func(ver *spec.Version, build func(a spec.Assignment) [3]float32) [][3]float32 {
 		dims := FullDims(ver, []int{0, 1, 2, 3, 4, 5, 6, 7, 8, 9, 10})
-		n := 1
-		for _, d := range dims {
-			n *= len(d.Vals)
-		}
-		tab := make([][]float64, n)
-		at := func(i int) spec.Assignment {
+		n := 259200
+		tab := make([][3]float32, n)
+		each(n, func(i int) {
 			a := v3bg(ver)
 			x := i
 			for _, d := range dims {
 				a[d.M] = d.Vals[x%len(d.Vals)]
 				x /= len(d.Vals)
 			}
-			return a
-		}
-		for i := 0; i < n; i += stride {
-			tab[i] = build(at(i))
-		}
-		for i := ((n - 1) / stride) * stride; i >= 0; i -= stride {
-			got := build(at(i))
-			for k := range got {
-				if got[k] != tab[i][k] {
-					add(tag+"/order-dependent", fmt.Sprintf("%s score %d of %s was %v in the ascending pass and %v in the descending pass", tag, k, ver.Canon(at(i)), tab[i][k], got[k]))
-					return
-				}
-			}
-			out.TableEntries++
-		}
+			tab[i] = build(a)
+		})
+		return tab
 	}
-	table3("v3.1", func(a spec.Assignment) []float64 {
+	safe3 := func(f func() [3]float32) (r [3]float32) {
+		if p := Safely(func() { r = f() }); p != nil {
+			return [3]float32{-999, -999, -999}
+		}
+		return
+	}
+	out.V31 = v3tab(spec.V31, func(a spec.Assignment) [3]float32 {
 		o, _ := (&OS[CVSS31T, *CVSS31T]{I: I31}).Build(a)
-		return []float64{o.BaseScore(), o.TemporalScore(), o.EnvironmentalScore()}
-	}, spec.V31)
-	table3("v3.0", func(a spec.Assignment) []float64 {
+		return safe3(func() [3]float32 {
+			return [3]float32{float32(o.BaseScore()), float32(o.TemporalScore()), float32(o.EnvironmentalScore())}
+		})
+	})
+	out.V30 = v3tab(spec.V30, func(a spec.Assignment) [3]float32 {
 		o, _ := (&OS[CVSS30T, *CVSS30T]{I: I30}).Build(a)
-		return []float64{o.BaseScore(), o.TemporalScore(), o.EnvironmentalScore()}
-	}, spec.V30)
+		return safe3(func() [3]float32 {
+			return [3]float32{float32(o.BaseScore()), float32(o.TemporalScore()), float32(o.EnvironmentalScore())}
+		})
+	})
 	{
 		ver := spec.V2
 		dims := FullDims(ver, []int{0, 1, 2, 3, 4, 5, 6, 7, 8})
-		n := 72900
-		tab := make([][3]float64, n)
-		at := func(i int) spec.Assignment {
+		out.V2 = make([][3]float32, 72900)
+		each(72900, func(i int) {
 			a := make(spec.Assignment, 14)
 			for k := 6; k < 14; k++ {
 				a[k] = int8(ver.NDIndex(k))
@@ -170,87 +182,174 @@ func C14Cold(tier string) {
 				a[d.M] = d.Vals[x%len(d.Vals)]
 				x /= len(d.Vals)
 			}
-			return a
-		}
-		sc := func(i int) [3]float64 {
-			o, _ := (&OS[CVSS20T, *CVSS20T]{I: I20}).Build(at(i))
-			// also exercise the parser / serialiser in the history
+			o, _ := (&OS[CVSS20T, *CVSS20T]{I: I20}).Build(a)
 			if p, err := I20.Parse(o.Vector()); err == nil {
 				o = *p
 			}
-			return [3]float64{o.BaseScore(), o.TemporalScore(), o.EnvironmentalScore()}
-		}
-		for i := 0; i < n; i += stride {
-			tab[i] = sc(i)
-		}
-		for i := ((n - 1) / stride) * stride; i >= 0; i -= stride {
-			if got := sc(i); got != tab[i] {
-				add("v2.0/order-dependent", fmt.Sprintf("v2 scores of %s were %v in the ascending pass and %v in the descending pass", ver.Canon(at(i)), tab[i], got))
-				break
-			}
-			out.TableEntries++
-		}
+			out.V2[i] = safe3(func() [3]float32 {
+				return [3]float32{float32(o.BaseScore()), float32(o.TemporalScore()), float32(o.EnvironmentalScore())}
+			})
+		})
 	}
-	// 3. the distinguished calls again (warm)
-	var warm [][]string
-	for _, o := range d40 {
-		oo := o
-		warm = append(warm, append(describe(I40, o), "Nomenclature="+oo.Nomenclature()))
-	}
-	for _, o := range d31 {
-		warm = append(warm, describe(I31, o))
-	}
-	for _, o := range d30 {
-		warm = append(warm, describe(I30, o))
-	}
-	for _, o := range d20 {
-		warm = append(warm, describe(I20, o))
-	}
-	for i := range cold {
-		for k := range cold[i] {
-			if cold[i][k] != warm[i][k] {
-				add("cold-vs-warm/"+trunc(cold[i][k], 12), fmt.Sprintf("object %s: as the first call of the process %s, after a long history %s", cold[i][0], cold[i][k], warm[i][k]))
-				break
-			}
-		}
-	}
+	out.Warm = calls()
 	json.NewEncoder(os.Stdout).Encode(out)
 	_ = gocvss40.Rating
 }
 
-// runC14Cold spawns the fresh process and reports its findings.
-func runC14Cold(r *Report) map[string]any {
+// runColdProcesses runs the two fresh processes (ascending / descending order) and returns their reports.
+func runColdProcesses(tier string) (asc, desc *coldTables, err error) {
 	exe, err := os.Executable()
 	if err != nil {
-		r.NotExhaustive("cold/warm differential not run: " + err.Error())
-		return nil
+		return nil, nil, err
 	}
-	b, err := exec.Command(exe, "c14cold", r.Tier).Output()
-	var out coldOut
-	if err != nil || json.Unmarshal(b, &out) != nil {
-		r.Note("cold/warm differential process failed: %v", err)
+	res := make([]*coldTables, 2)
+	errs := make([]error, 2)
+	done := make(chan int, 2)
+	for i, ord := range []string{"asc", "desc"} {
+		go func(i int, ord string) {
+			defer func() { done <- i }()
+			b, e := exec.Command(exe, "c14cold", tier, ord).Output()
+			if e != nil {
+				errs[i] = e
+				return
+			}
+			var t coldTables
+			if e := json.Unmarshal(b, &t); e != nil {
+				errs[i] = e
+				return
+			}
+			res[i] = &t
+		}(i, ord)
+	}
+	<-done
+	<-done
+	for _, e := range errs {
+		if e != nil {
+			return nil, nil, e
+		}
+	}
+	return res[0], res[1], nil
+}
+
+// coldFindings compares the two processes: cold vs warm calls inside each, and the tables of one against the other.
+func coldFindings(asc, desc *coldTables) (keys, whats []string, compared int) {
+	add := func(k, w string) {
+		if len(keys) < 20 {
+			keys = append(keys, k)
+			whats = append(whats, w)
+		}
+	}
+	for _, t := range []*coldTables{asc, desc} {
+		for i := range t.Cold {
+			for k := range t.Cold[i] {
+				if t.Cold[i][k] != t.Warm[i][k] {
+					add("cold-vs-warm/"+trunc(t.Cold[i][k], 12), fmt.Sprintf("object %s: as one of the first calls of the process %s, after a long history %s", t.Cold[i][0], t.Cold[i][k], t.Warm[i][k]))
+					break
+				}
+			}
+		}
+	}
+	for i := range asc.Cold {
+		for k := range asc.Cold[i] {
+			if asc.Cold[i][k] != desc.Cold[i][k] {
+				add("process-dependent", fmt.Sprintf("object %s: %s in one process, %s in another", asc.Cold[i][0], asc.Cold[i][k], desc.Cold[i][k]))
+				break
+			}
+		}
+	}
+	for i := range asc.V4 {
+		compared++
+		if asc.V4[i] != desc.V4[i] {
+			rp := CanonRepr(coldV4Class(i))
+			o, _ := rp.Object()
+			add("v4.0/Score/order-dependent", fmt.Sprintf("Score(%s) = %v when the classes are scored in ascending order from a fresh process, %v in descending order", o.Vector(), asc.V4[i], desc.V4[i]))
+			break
+		}
+	}
+	cmp3 := func(tag string, a, b [][3]float32) {
+		for i := range a {
+			compared++
+			if a[i] != b[i] {
+				add(tag+"/order-dependent", fmt.Sprintf("%s scores of table entry %d are %v when scored in ascending order from a fresh process and %v in descending order", tag, i, a[i], b[i]))
+				return
+			}
+		}
+	}
+	cmp3("v3.1", asc.V31, desc.V31)
+	cmp3("v3.0", asc.V30, desc.V30)
+	cmp3("v2.0", asc.V2, desc.V2)
+	return
+}
+
+// runC14Cold spawns the fresh processes and reports their findings.
+func runC14Cold(r *Report) map[string]any {
+	asc, desc, err := runColdProcesses(r.Tier)
+	if err != nil {
+		r.Note("cold/warm differential processes failed: %v", err)
 		r.NotExhaustive("cold/warm differential failed to run")
 		return nil
 	}
-	for i, v := range out.Violations {
-		r.Violation(Case{Kind: "cold-warm", Key: "history-dependence/" + out.Keys[i], Expected: "the same result whatever was called before", Observed: v, Args: map[string]any{"tier": r.Tier}}, nil)
+	keys, whats, compared := coldFindings(asc, desc)
+	for i := range keys {
+		r.Violation(Case{Kind: "cold-warm", Key: "history-dependence/" + keys[i], Expected: "the same result whatever was called before", Observed: whats[i], Args: map[string]any{"tier": r.Tier}}, nil)
 	}
-	return map[string]any{"cold_first_calls_on_distinguished_objects": out.ColdCalls, "table_entries_compared_ascending_vs_descending": out.TableEntries}
+	return map[string]any{"cold_first_calls_on_distinguished_objects_per_process": len(asc.Cold), "table_entries_compared_between_ascending_and_descending_fresh_processes": compared}
+}
+
+// coldFormatCheck applies C11's predicate to every table entry of both fresh processes.
+func coldFormatCheck(r *Report) {
+	asc, desc, err := runColdProcesses(r.Tier)
+	if err != nil {
+		r.Note("fresh-process tables not available: %v", err)
+		return
+	}
+	for _, t := range []*coldTables{asc, desc} {
+		bad := func(ver string, s float32, what string) {
+			r.Violation(Case{Kind: "cold-warm", Key: "v" + ver + "/score/malformed@fresh-process-" + t.Order, Expected: "finite one-decimal score in range",
+				Observed: fmt.Sprintf("%v for %s when the table is computed in %s order from a fresh process", s, what, t.Order), Args: map[string]any{"tier": r.Tier}}, nil)
+		}
+		for i, s := range t.V4 {
+			if s == 0 && i%3 != 0 && r.Tier != "thorough" {
+				continue // not computed in quick (stride 3)
+			}
+			if why := wellFormedScore(float64(float32(s)), 0, 100); why != "" && !closeTenth(s) {
+				rp := CanonRepr(coldV4Class(i))
+				o, _ := rp.Object()
+				bad("4.0", s, o.Vector())
+				break
+			}
+			r.Transitions.Add(1)
+		}
+		for _, tab := range []struct {
+			ver string
+			t   [][3]float32
+		}{{"3.1", t.V31}, {"3.0", t.V30}} {
+			for i, e := range tab.t {
+				for _, s := range e {
+					if !closeTenth(s) || s < 0 || s > 10 {
+						bad(tab.ver, s, fmt.Sprintf("table entry %d", i))
+					}
+				}
+				r.Transitions.Add(3)
+			}
+		}
+	}
+}
+
+// closeTenth: float32 image of a one-decimal score.
+func closeTenth(s float32) bool {
+	k := float32(int(s*10 + 0.5))
+	return s >= 0 && float32(k/10) == s
 }
 
 func init() {
 	replayers["cold-warm"] = func(c *Case) string {
-		exe, err := os.Executable()
+		asc, desc, err := runColdProcesses(argStr(c, "tier"))
 		if err != nil {
-			return err.Error()
+			return "cold/warm processes failed: " + err.Error()
 		}
-		b, err := exec.Command(exe, "c14cold", argStr(c, "tier")).Output()
-		var out coldOut
-		if err != nil || json.Unmarshal(b, &out) != nil {
-			return "cold/warm process failed"
-		}
-		if len(out.Violations) > 0 {
-			return out.Violations[0]
+		if _, whats, _ := coldFindings(asc, desc); len(whats) > 0 {
+			return whats[0]
 		}
 		return ""
 	}
